@@ -1,3 +1,305 @@
-import Babylon.Core.Proto
-/-! Line-protocol driver for property C05 (stub). -/
-def main : IO Unit := Babylon.Core.runLines (fun (s : Unit) _ => (s, "bad-op")) ()
+import Babylon.Core.Trace
+import Babylon.Anyflow.Dep
+import Babylon.Anyflow.Graph
+/-! Replay driver for property C05 (anyflow).
+stdin: runs `RUN <seed> mode=dep|graph|pool|inject …` / VRT trace lines / `END`; stdout per run: `ok <n>` | `diverge <why>`.
+
+* mode `dep` (L1, atomic lock-step): every operation on `dep.wn`, `C.closure`, `T.closure`, `V.wn` must be the next
+  action of one of the three actors of `Babylon.Anyflow.Dep.step` (actor ↔ thread is resolved by the first action of an
+  actor: the `fetch_add` for A, the relaxed load of `release` for C / T); extra acquire loads of a closure word by code
+  outside the protocol (`flush_emits`, the harness oracle) are stutter steps.
+* modes `graph` / `pool` / `inject` (L2, event level): the named atomics of vertices, data and closure and the harness
+  events are translated one-to-one into `Babylon.Anyflow.Graph.Ev` and must be enabled in `stepEvent`; reported final
+  values are compared with the model state and, after a successful run, the targets with `evalSeq`. -/
+open Babylon.Core Babylon.Anyflow
+
+def kvNat (ws : List String) (key : String) : Option Nat :=
+  (ws.filterMap (fun w => if w.startsWith (key ++ "=") then (w.drop (key.length + 1)).toNat? else none)).head?
+
+/- =========================================== L1: one dependency =========================================== -/
+structure DepR where
+  s : Option Dep.State := none
+  thr : List (Dep.Actor × Nat) := []       -- most recent first
+
+def DepR.actorsOf (r : DepR) (t : Nat) : List Dep.Actor := (r.thr.filter (·.2 == t)).map (·.1)
+
+def depLoc (l : String) : Bool := l == "dep.wn" || l == "C.closure" || l == "T.closure" || l == "V.wn"
+
+def actLoc : Act → Option String
+  | .ld l _ _ _ => some l | .st l _ _ _ => some l | .xchg l _ _ _ _ => some l
+  | .cas l _ _ _ _ _ _ _ _ => some l | .rmw _ l _ _ _ _ => some l | _ => none
+
+def isSpurious : Act → Bool
+  | .cas _ _ _ _ _ e _ ok obs => !ok && e == obs
+  | _ => false
+
+def depTry (s : Dep.State) (xs : List Dep.Actor) (a : Act) : Option Dep.State :=
+  xs.findSome? (fun x =>
+    match Dep.step s x (isSpurious a) with
+    | some (s', l) => if l = a then some s' else none
+    | none => none)
+
+def depCheck (s : Dep.State) : Except String Dep.State :=
+  if Dep.good s then .ok s else .error s!"the model left the set of good states (dep_protocol_exhaustive would be false): {reprStr s}"
+
+def depObs (r : DepR) (o : Obs) : Except String DepR :=
+  let t := o.tid
+  match Act.ofObs o with
+  | none => .error "unknown trace line"
+  | some (.ev ("cycle" :: _ :: kv)) =>
+    match kvNat kv "hasCond", kvNat kv "b" with
+    | some h, some b => .ok { s := some (Dep.State.init ⟨h == 1, h == 1 && b == 1⟩), thr := [] }
+    | _, _ => .error "bad cycle line"
+  | some a =>
+    match r.s with
+    | none => .ok r
+    | some s =>
+      match a with
+      | .ev ["invoke", "2", tok] =>
+        let want := Act.ev ["process", if tok == "-" then "0" else "1"]
+        match depTry s (r.actorsOf t) want with
+        | some s' => do let s' ← depCheck s'; pure { r with s := some s' }
+        | none => .error s!"the source vertex runs in thread {t} (dependency ready = {tok != "-"}) but no actor of that thread made it runnable with that `_ready`; model state {reprStr s}"
+      | .ev ["waited"] =>
+        if (s.a == .idle || s.a == .done) && (s.c == .idle || s.c == .done) && (s.t == .idle || s.t == .done) then .ok r
+        else .error s!"run finished but the model still has an actor in the middle of its protocol: {reprStr s}"
+      | .ev _ | .spawn _ | .join _ | .exit => .ok r
+      | _ =>
+        match actLoc a with
+        | none => .ok r
+        | some loc =>
+          if !depLoc loc then .ok r else
+          match a with
+          | .st "V.wn" _ _ v => if v == 1 && s.a == .idle then .ok r else .error s!"unexpected store {v} to the vertex counter"
+          | _ =>
+            -- first action of an actor binds it to this thread
+            let starter : Option Dep.Actor := match a with
+              | .rmw "add" "dep.wn" _ _ _ _ => some .A
+              | .ld "C.closure" _ .rlx _ => some .C
+              | .ld "T.closure" _ .rlx _ => some .T
+              | _ => none
+            let r := match starter with
+              | some x => { r with thr := (x, t) :: r.thr.filter (·.1 != x) }
+              | none => r
+            match depTry s (r.actorsOf t) a with
+            | some s' => do let s' ← depCheck s'; pure { r with s := some s' }
+            | none =>
+              match a with
+              | .ld _ _ .acq _ => .ok r        -- stutter: a look at a closure word by code outside the protocol
+              | _ => .error s!"thread {t} did {reprStr a}, which is not the next action of its actors {reprStr (r.actorsOf t)} in model state {reprStr s}"
+
+/- =========================================== L2: whole graphs =========================================== -/
+open Babylon.Anyflow.Graph in
+structure GR where
+  verts : Array VertexSpec := #[]
+  nData : Nat := 0
+  envs : List (Nat × Option Val) := []
+  p : Option Params := none
+  s : State := State.init
+  pendPub : List (Nat × Nat × Option Val) := []
+  owedD : List Nat := []
+  bindAdd : Bool := false
+  bindFailOwed : Bool := false
+  mainInFire : Bool := false
+  code : Option Int := none
+  inCycle : Bool := false
+
+open Babylon.Anyflow.Graph
+
+def parseOV (s : String) : Option (Option Val) :=
+  if s == "-" || s == "e" then some none else s.toNat?.map some
+
+def parseDep (w : String) : Option DepSpec :=
+  match w.splitOn ":" with
+  | [t, c, ev, es] => do
+    let t ← t.toNat?
+    let cond ← if c == "-" then some none else c.toNat?.map (fun c => some (c, ev == "1"))
+    pure { target := t, cond := cond, essential := es == "1" }
+  | _ => none
+
+def splitAt (ws : List String) (key : String) : List String × List String :=
+  (ws.takeWhile (· != key), (ws.dropWhile (· != key)).drop 1)
+
+/-- `v12.act` ↦ ('v', [12], "act");  `e3_1.wn` ↦ ('e', [3,1], "wn");  `ctx.cb` ↦ ('c', [], "cb") -/
+def parseLoc (l : String) : Option (Char × List Nat × String) :=
+  match l.splitOn "." with
+  | [a, f] =>
+    if a == "ctx" then some ('c', [], f)
+    else
+      let c := a.front
+      match ((a.drop 1).toString.splitOn "_").mapM String.toNat? with
+      | some ns => some (c, ns, f)
+      | none => none
+  | _ => none
+
+def u64 (i : Int) : Nat := (i % 18446744073709551616).toNat
+
+def GR.ev (r : GR) (e : Ev) (what : String) : Except String GR :=
+  match r.p with
+  | none => .error s!"{what}: no graph yet"
+  | some p =>
+    match stepEvent p r.s e with
+    | some s' => .ok { r with s := s' }
+    | none => .error s!"{what}: event {reprStr e} is not enabled in the model"
+
+def mkParams (r : GR) (targets : List Nat) : Params :=
+  let verts := r.verts.toList
+  let emits := (verts.map (·.emits)).flatten
+  let nIn := emits.foldl min r.nData
+  let envs := r.envs
+  { g := { nIn := nIn, nData := r.nData, verts := verts }, proc := mix,
+    inp := fun d => (envs.find? (·.1 == d)).map (·.2), targets := targets }
+
+def showOV : Option Val → String
+  | some v => toString v
+  | none => "-"
+
+def graphObs (r : GR) (o : Obs) : Except String GR :=
+  let t := o.tid
+  match Act.ofObs o with
+  | none => .error "unknown trace line"
+  | some (.ev ("cycle" :: _)) =>
+    -- a new cycle on the same graph instance: the model must accept `reset` and is then in its initial state
+    if r.inCycle then
+      match r.p with
+      | some p =>
+        match stepEvent p r.s .reset with
+        | some s' => .ok { s := s', inCycle := true }
+        | none => .error "reset: the model does not accept `reset` at the end of the previous cycle (run not completely finished)"
+      | none => .ok { inCycle := true }
+    else .ok { inCycle := true }
+  | some (.ev ["graph", "ndata", n]) => .ok { r with nData := n.toNat?.getD 0 }
+  | some (.ev ("graph" :: "vertex" :: _ :: "kind" :: _ :: "emits" :: rest)) =>
+    let (es, ds) := splitAt rest "deps"
+    match es.mapM String.toNat?, ds.mapM parseDep with
+    | some es, some ds => .ok { r with verts := r.verts.push { deps := ds, emits := es } }
+    | _, _ => .error "bad graph vertex line"
+  | some (.ev ["env", d, x]) =>
+    match d.toNat?, parseOV x with
+    | some d, some x => .ok { r with envs := (d, x) :: r.envs }
+    | _, _ => .error "bad env line"
+  | some (.ev ("targets" :: ts)) =>
+    match ts.mapM String.toNat? with
+    | some ts =>
+      let p := mkParams r ts
+      if wfB p then .ok { r with p := some p } else .error "the generated graph is not well-formed (topological numbering / unique producers / distinct targets)"
+    | none => .error "bad targets line"
+  | some (.ev ["publish", d, x]) =>
+    match d.toNat?, parseOV x with
+    | some d, some x => .ok { r with pendPub := (t, d, x) :: r.pendPub }
+    | _, _ => .error "bad publish line"
+  | some (.ev ("run" :: _)) => r.ev .run "run"
+  | some (.ev ["activate", v]) =>
+    match v.toNat? with
+    | some v => if r.s.vact v then .ok r else .error s!"on_activate of vertex {v} without a successful activation CAS"
+    | none => .error "bad activate line"
+  | some (.ev ("invoke" :: v :: toks)) =>
+    match v.toNat?, toks.mapM parseOV with
+    | some v, some ins => r.ev (.procStart v ins) s!"processor of vertex {v} entered with inputs {toks}"
+    | _, _ => .error "bad invoke line"
+  | some (.ev ["done", v]) =>
+    match v.toNat? with
+    | some v => r.ev (.procEnd v) "processor left"
+    | none => .error "bad done line"
+  | some (.ev ["result", c]) =>
+    match parseInt? c with
+    | some c =>
+      match r.s.fin with
+      | some f => if (f == 0) == (c == 0) then .ok { r with code := some c } else .error s!"get() returned {c}, the model finished with {f}"
+      | none => .error s!"get() returned {c} but the model's closure is not finished"
+    | none => .error "bad result line"
+  | some (.ev ["waited"]) =>
+    if r.s.flushed == 0 then .error "wait() returned but the model's closure was not flushed"
+    else if !r.s.lateEnv && (r.s.opened != 0 || r.s.procs != 0 || r.s.wvn != 0) then
+      .error s!"wait() returned with {r.s.opened} open vertex closures / {r.s.procs} running processors in the model"
+    else .ok r
+  | some (.ev ["value", d, x]) =>
+    match d.toNat?, r.p with
+    | some d, some p =>
+      if x == "unready" then
+        if r.s.sealed d then .error s!"data {d} is not ready in the implementation but sealed in the model" else .ok r
+      else
+        match parseOV x with
+        | some x =>
+          if !r.s.sealed d then .error s!"data {d} is ready in the implementation but not in the model"
+          else if r.s.val d != x then .error s!"data {d} = {showOV x} in the implementation, {showOV (r.s.val d)} in the model"
+          else if r.code == some 0 && p.targets.contains d && evalSeq p d != x then
+            .error s!"target {d} = {showOV x} after a successful run, evalSeq gives {showOV (evalSeq p d)}"
+          else .ok r
+        | none => .error "bad value line"
+    | _, _ => .error "bad value line"
+  | some (.ev _) | some (.spawn _) | some (.join _) | some .exit => .ok r
+  | some a =>
+    match actLoc a with
+    | none => .ok r
+    | some loc =>
+      match parseLoc loc, r.p with
+      | none, _ => .ok r
+      | _, none => .ok r
+      | some (c, ns, f), some p =>
+        match c, ns, f, a with
+        | 'v', [v], "act", .cas _ _ _ _ _ _ _ ok _ =>
+          if ok then r.ev (.activate v) s!"activation CAS of vertex {v} succeeded"
+          else if r.s.vact v then .ok r else .error s!"activation CAS of vertex {v} failed but the model has it inactive"
+        | 'v', [v], "wn", .st _ _ _ n =>
+          if r.s.vact v && n == p.g.nDeps v then .ok r else .error s!"vertex {v}: stored count {n}, model expects {p.g.nDeps v} (activated={r.s.vact v})"
+        | 'v', [v], "wn", .rmw "sub" _ _ _ old cnt =>
+          if old != u64 (r.s.wn v) then .error s!"vertex {v}: counter was {old}, model has {r.s.wn v}"
+          else r.ev (.vdec v cnt) s!"vertex {v} counter decremented by {cnt}"
+        | 'e', [v, k], "wn", .rmw "add" _ _ _ _ _ =>
+          if r.s.dactN v != k then .error s!"dependency {k} of vertex {v} activated, model expects dependency {r.s.dactN v} next"
+          else r.ev (.dactivate v) s!"dependency {k} of vertex {v} activated"
+        | 'd', [d], "closure", .cas _ _ weak _ _ _ desired ok _ =>
+          if !weak then
+            -- GraphData::bind
+            if !r.bindAdd then .error "bind CAS without the preceding depend_data_add" else
+            if p.targets[r.s.bindPc]? != some d then .error s!"bind of data {d}, model expects target index {r.s.bindPc}" else
+            let willBind := !(r.s.sealed d || r.s.bound d)
+            if willBind != ok then .error s!"bind CAS of data {d}: ok={ok}, model says {willBind}" else
+            do let r ← r.ev .bind "bind"; pure { r with bindAdd := false, bindFailOwed := !ok }
+          else if ok && desired == Babylon.Gen.Anyflow.sealedClosure then
+            let x := ((r.pendPub.find? (fun q => q.1 == t && q.2.1 == d)).map (·.2.2)).getD none
+            let r' := { r with pendPub := r.pendPub.filter (fun q => !(q.1 == t && q.2.1 == d)) }
+            let wasBound := r.s.bound d
+            let e : Ev := if !r.s.running then .envSeal d x else
+              match p.g.producer d with
+              | some (v, k) => .seal v k x
+              | none => .envSeal d x
+            do let r' ← r'.ev e s!"data {d} sealed with {showOV x} by thread {t}"
+               pure (if wasBound then { r' with owedD := t :: r'.owedD } else r')
+          else .ok r
+        | 'c', [], "wdn", .rmw "add" _ _ _ _ _ => .ok { r with bindAdd := true }
+        | 'c', [], "wdn", .rmw "sub" _ _ _ old _ =>
+          let expect := r.s.wdn + (if r.bindAdd || r.bindFailOwed then 1 else 0)
+          if old != expect then .error s!"closure data count was {old}, model has {expect}" else
+          if r.bindFailOwed && t == 0 then .ok { r with bindFailOwed := false }
+          else if r.owedD.contains t then do let r ← r.ev .dsub "depend_data_sub"; pure { r with owedD := r.owedD.erase t }
+          else if t == 0 then do let r ← r.ev .fireD "fire (data)"; pure { r with mainInFire := true }
+          else .error s!"thread {t} decrements the closure's data count without having sealed a bound data"
+        | 'c', [], "wvn", .rmw "add" _ _ _ old _ =>
+          if old != r.s.wvn then .error s!"closure vertex count was {old}, model has {r.s.wvn}" else r.ev .vadd "vertex closure created"
+        | 'c', [], "wvn", .rmw "sub" _ _ _ old _ =>
+          if old != r.s.wvn then .error s!"closure vertex count was {old}, model has {r.s.wvn}"
+          else if t == 0 && r.mainInFire then do let r ← r.ev .fireV "fire (vertex)"; pure { r with mainInFire := false }
+          else r.ev .vsub "vertex closure done"
+        | 'c', [], "cb", .cas _ _ _ _ _ _ _ ok _ =>
+          if ok then r.ev (.finish (if r.s.wdn == 0 then 0 else -1)) "mark_finished" else .ok r
+        | _, _, _, _ => .ok r
+
+/- =========================================== dispatch =========================================== -/
+inductive R
+  | dep (r : DepR)
+  | graph (r : GR)
+
+def initR (hdr : List String) : R :=
+  if hdr.contains "mode=dep" then .dep {} else .graph {}
+
+def stepObs (r : R) (o : Obs) : Except String R :=
+  match r with
+  | .dep d => (depObs d o).map .dep
+  | .graph g => (graphObs g o).map .graph
+
+def finalR (_ : R) : Except String Unit := .ok ()
+
+def main : IO Unit := do
+  replayLoop (← IO.getStdin) initR stepObs finalR
